@@ -81,7 +81,7 @@ func genHostileRaw(r *core.Rand, mid string) []byte {
 		}
 		return []byte(h + "\r\nhello\r\n")
 	}
-	switch r.Pick(3, 2, 2, 2, 1, 1, 1, 1, 1, 1, 1) {
+	switch r.Pick(3, 2, 2, 2, 1, 1, 1, 1, 1, 1, 1, 3) {
 	case 0:
 		return hdr(core.Choice(r, []string{"-1", "-5", "-2147483648", "-9223372036854775808"}))
 	case 1:
@@ -102,6 +102,23 @@ func genHostileRaw(r *core.Rand, mid string) []byte {
 		return r.Bytes(r.Range(1, 300))
 	case 9: // huge header line
 		return []byte("Mid: " + mid + "\r\nSubject: " + strings.Repeat("s", r.Range(5000, 200000)) + "\r\nBody: 5\r\n\r\nhello\r\n")
+	case 11: // malformed and well-formed File headers mixed, sections of exactly the declared size
+		h := "Mid: " + mid + "\r\nDate: 2020/01/01 10:00\r\nFrom: X\r\nTo: Y\r\nSubject: s\r\nBody: 5\r\n"
+		var data string
+		for i, n := 0, r.Range(2, 4); i < n; i++ {
+			switch r.Pick(2, 2, 1) {
+			case 0:
+				h += "File: " + core.Choice(r, []string{"x", "nosize", "", " ", "7"}) + "\r\n"
+			case 1:
+				k := r.Range(0, 9)
+				h += fmt.Sprintf("File: %d f%d.txt\r\n", k, i)
+				data += strings.Repeat("d", k) + "\r\n"
+			case 2:
+				h += "File: 0 empty.bin\r\n"
+				data += "\r\n"
+			}
+		}
+		return []byte(h + "\r\nhello\r\n" + data)
 	default: // many files
 		h := "Mid: " + mid + "\r\nDate: 2020/01/01 10:00\r\nFrom: X\r\nTo: Y\r\nSubject: s\r\nBody: 5\r\n"
 		for i := 0; i < r.Range(1, 2000); i++ {
@@ -244,7 +261,8 @@ func genC03(tier string, r *core.Rand) C03Plan {
 		}
 		switch r.Pick(5, 2, 2) {
 		case 0:
-			mut("fs", 0, "replace", 0, 0, []byte(core.Choice(r, []string{"FS", "FS ", "FS +", "FS ++++++++++", "FS A", "FS !", "FS A99999999999999999999", "FS !500000", "FS A5", "FS !7", "FS x", "FS +-=YNLHR", "FS A1A2A3A4A5", "FS !999999", "FS !1000000", "FX +", "fs +"})+"\r"))
+			mut("fs", 0, "replace", 0, 0, []byte(core.Choice(r, []string{"FS", "FS ", "FS +", "FS ++++++++++", "FS A", "FS !", "FS A99999999999999999999", "FS !500000", "FS A5", "FS !7", "FS x", "FS +-=YNLHR", "FS A1A2A3A4A5", "FS !999999", "FS !1000000", "FX +", "fs +",
+				"FS !9223372036854775808", "FS A9999999999999999999", "FS !18446744073709551615", "FS A9223372036854775807", "FS !18446744073709551617", "FS A00000000000000000000001", "FS !" + digitsOf(r, r.Range(18, 40))})+"\r"))
 		case 1:
 			mut("fs", 0, "trunc", r.Intn(5), 0, nil)
 		case 2:
@@ -406,4 +424,15 @@ func runByzantine(sim *core.Sim, p C03Plan) (*peerRun, int) {
 		c.Close()
 	})
 	return pr, len(p.Garbage)
+}
+
+func digitsOf(r *core.Rand, n int) string {
+	b := make([]byte, n)
+	for i := range b {
+		b[i] = byte('0' + r.Intn(10))
+	}
+	if b[0] == '0' {
+		b[0] = '9'
+	}
+	return string(b)
 }
